@@ -409,6 +409,90 @@ func sfRunListenerRepeats(c *engine.Ctx, replica int) {
 	}
 }
 
+// sfRunRotateNamingRegistered: the must-reject requests again inside rotation payloads, this time naming a
+// key that is registered (another node the operator authorized, whose request the sender has seen): the
+// rejection must come before any storage write, so that node's record is still there, byte for byte.
+func sfRunRotateNamingRegistered(c *engine.Ctx, replica int) {
+	r := c.R
+	w, err := sfNewWorld(sfRotate)
+	if err != nil {
+		sfPrepareFailed(c, sfCase{Kind: "rotate-naming-registered", Target: sfRotate, Replica: replica}, err)
+		return
+	}
+	s := w.srv.s
+	defer s.Close()
+	victim, err := world.NewNode(false, "")
+	if err != nil {
+		r.Broken("sigfresh: node: " + err.Error())
+		return
+	}
+	vreq, err := victim.FetchRequest()
+	if err == nil {
+		_, err = registration.AuthorizeNode(s.Ctx, s.Store, sfClone(vreq), s.Opts()...)
+	}
+	if err != nil {
+		r.Broken("sigfresh: authorizing the named node: " + err.Error())
+		return
+	}
+	before := &types.NodeInformation{Id: victim.K.KeyID}
+	if err := s.Inner.Load(s.Ctx, before); err != nil {
+		r.Broken("sigfresh: raw load: " + err.Error())
+		return
+	}
+	rng := c.Rng(fmt.Sprintf("sigfresh/rotate-naming-registered/%d", replica))
+	for k := 0; k < 10; k++ {
+		req := sfClone(vreq)
+		var what string
+		switch k % 5 {
+		case 0:
+			i := rng.Intn(len(req.BundleSignature) * 8)
+			req.BundleSignature[i/8] ^= 1 << (i % 8)
+			what = fmt.Sprintf("signature bit %d flipped", i)
+		case 1:
+			req.BundleSignature = req.BundleSignature[:rng.Intn(len(req.BundleSignature))]
+			what = fmt.Sprintf("signature truncated to %d bytes", len(req.BundleSignature))
+		case 2:
+			// a well-formed unknown field appended after signing: nonce and key still decode
+			req.Bundle = append(req.Bundle, 0xf8, 0x07, 0x01)
+			what = "bundle extended after signing"
+		case 3:
+			req = world.Resign(vreq, victim.K.Priv, func(i *types.FetchNodeCredentialsInfo) {
+				i.NotBefore, i.NotAfter = timestamppb.New(time.Now().Add(-72*time.Hour)), timestamppb.New(time.Now().Add(-48*time.Hour))
+			})
+			what = "authentic bundle whose window ended 48 h ago"
+		default:
+			req = world.Resign(vreq, victim.K.Priv, func(i *types.FetchNodeCredentialsInfo) {
+				i.NotBefore, i.NotAfter = timestamppb.New(time.Now().Add(48*time.Hour)), timestamppb.New(time.Now().Add(72*time.Hour))
+			})
+			what = "authentic bundle whose window begins in 48 h"
+		}
+		sc := sfCase{Kind: "rotate-naming-registered", Target: sfRotate, Replica: replica, Part: "signature", Mut: what, Index: k}
+		o := w.call(req)
+		r.Eval(engine.J(sc), true)
+		after := &types.NodeInformation{Id: victim.K.KeyID}
+		lerr := s.Inner.Load(s.Ctx, after)
+		var writes []string
+		for _, op := range o.ops {
+			if op.Kind == "store" || op.Kind == "remove" {
+				writes = append(writes, op.Kind+"-"+op.Type)
+			}
+		}
+		switch {
+		case o.panicV != nil:
+			r.Violation("panic:"+engine.LibraryFrame(o.stack), fmt.Sprintf("RotateNodeCredentials panicked on an inner request with %s: %v", what, o.panicV), sfWitness(sc, w, req))
+			return
+		case o.err == nil:
+			r.Violation("accepted-after-mutation:signature:rotation-naming-a-registered-key", fmt.Sprintf("a rotation whose inner request names a registered key and has %s was not rejected", what), sfWitness(sc, w, req))
+			return
+		case len(writes) > 0 || lerr != nil || !proto.Equal(before, after):
+			r.Violation("storage-op-before-rejection:rotation-naming-a-registered-key", fmt.Sprintf("a rotation whose inner request (%s) had to be rejected wrote to storage first (%v); the record of the key it names: load err=%v, unchanged=%v", what, writes, lerr, lerr == nil && proto.Equal(before, after)), sfWitness(sc, w, req))
+			return
+		default:
+			r.Count("rotation_naming_registered_key_rejected_without_writes", 1)
+		}
+	}
+}
+
 func sfOpName(target string) string {
 	if target == sfListener {
 		return "the intercepting listener (fetch handshake)"
@@ -632,6 +716,10 @@ var sfResignedList = []sfResigned{
 	}},
 	{name: "certificate-key-not-ed25519", key: "accepted-with-non-ed25519-key", mutate: func(i *types.FetchNodeCredentialsInfo) { i.CertificatePublicKeyPkix = sfEcdsaPkix() }},
 	{name: "certificate-key-garbage", key: "accepted-with-non-ed25519-key", mutate: func(i *types.FetchNodeCredentialsInfo) { i.CertificatePublicKeyPkix = world.RandBytes(44) }},
+	// an absent timestamp is protobuf's zero value, the Unix epoch: a window that ends there ended long ago
+	{name: "not-after-absent", key: "accepted-outside-window:not_after-absent", mutate: func(i *types.FetchNodeCredentialsInfo) { i.NotAfter = nil }},
+	{name: "not-after-zero", key: "accepted-outside-window:not_after-zero", mutate: func(i *types.FetchNodeCredentialsInfo) { i.NotAfter = &timestamppb.Timestamp{} }},
+	{name: "both-timestamps-absent", key: "accepted-outside-window:not_after-absent", mutate: func(i *types.FetchNodeCredentialsInfo) { i.NotBefore, i.NotAfter = nil, nil }},
 	{name: "signed-by-key-not-named-in-bundle", key: "accepted-signature-of-foreign-key", other: true},
 }
 
@@ -1172,7 +1260,7 @@ func runSigFresh(c *engine.Ctx) engine.Result {
 		Assumptions: []string{
 			"ties between a validity boundary and the present are not generated: every window point is >= 1 minute away from both widened boundaries",
 			"only non-positive not-before skews and non-negative not-after skews are configured",
-			"a request with absent NotBefore/NotAfter is not judged (the statement does not say what an absent window means)",
+			"an absent NotAfter is read as protobuf's zero timestamp (the Unix epoch), i.e. a window that has ended: such a re-signed bundle must be rejected; an absent NotBefore (window open since the epoch) is not judged",
 			"creation bracket uses ±2 s slack around two wall-clock readings",
 			"trusts crypto/ed25519, crypto/x509, protobuf decoding and the recording storage wrapper",
 		},
@@ -1232,6 +1320,8 @@ func runSigFresh(c *engine.Ctx) engine.Result {
 	// the same bundle a second time at one listener, with signatures that do not verify
 	nrep := c.Pick(4, 40)
 	engine.ForEach(nrep, engine.Workers(), func(i int) { sfRunListenerRepeats(c, i) })
+	engine.ForEach(nrep, engine.Workers(), func(i int) { sfRunRotateNamingRegistered(c, i) })
+	r.Require("rotation_naming_registered_key_rejected_without_writes", int64(nrep*8))
 	r.Require("listener_repeats_rejected", int64(nrep*8))
 
 	// ---- phase 3: windows ---------------------------------------------------------
